@@ -217,7 +217,7 @@ def _simulate_built(unit, P, root, uidx, comp, drv, scratch, res):
                 continue        # Canon and the laws report the same call
             seen_p1.add(k)
             _add(res, f, ctx, "canonical")
-        for f in oracles.end_law_check(calls):
+        for f in oracles.end_law_check(calls, {a[0] for a in run.aborts}):
             _add(res, f, ctx, "canonical")
         _merge_probes(stats, pr)
         all_states |= cn.states_seen
@@ -326,7 +326,7 @@ def _simulate_built(unit, P, root, uidx, comp, drv, scratch, res):
                 annotate_stall(f, calls, meta, xs[xi])
                 _add(res, f, ctx, "scheduled")
             _merge_probes(stats, pr)
-            for f in oracles.end_law_check(calls):
+            for f in oracles.end_law_check(calls, {a[0] for a in run.aborts}):
                 _add(res, f, ctx, "scheduled")
             # non-triviality: canonical trace consumed >= 2 bytes and has an event or a terminal code,
             # and the script put at least one fault inside the consumed region
@@ -463,7 +463,7 @@ def evaluate_script(unit, comp, drv, scratch, ins, lines, fill=0, want=("L2", "L
             _add(res, f, ctx, "canonical")
         cn = oracles.Canon(run, len(ins[sid]), caps.indirect, caps.has_end)
         lf, _ = oracles.law_check(run.session(0), ops, flags, True)
-        for f in cn.findings + lf + oracles.end_law_check(run.session(0)):
+        for f in cn.findings + lf + oracles.end_law_check(run.session(0), {a[0] for a in run.aborts}):
             annotate_stall(f, run.session(0), meta, ins[sid])
             _add(res, f, ctx, "canonical")
         if cn.ok:
@@ -489,7 +489,7 @@ def evaluate_script(unit, comp, drv, scratch, ins, lines, fill=0, want=("L2", "L
             for f in ff:
                 _add(res, f, ctx, "scheduled")
         lf, _ = oracles.law_check(calls, ops, flags)
-        for f in lf + oracles.end_law_check(calls):
+        for f in lf + oracles.end_law_check(calls, {a[0] for a in run.aborts}):
             annotate_stall(f, calls, meta, ins[sid])
             _add(res, f, ctx, "scheduled")
     return res["findings"], False
